@@ -50,8 +50,35 @@ Dup(st, v) == IF HasKey(st.k, v) THEN <<v, ApplyMap("inc", v)>> ELSE <<v>>
 \* each selected value separately, i.e. on the one-value flow [v] - on the run side and on the fill side alike.
 RunIfSeq(p, inner) == [t |-> "runifseq", p |-> p, inner |-> inner]
 InnerRun(st, v) == IF Pred(st.p, v) THEN Sem(st.inner, <<v>>) ELSE <<v>>
+\* Filter with a composed selector: Not(..), tuples (and), lists (or), Selector(pred, raise_on_error=False) around a
+\* predicate that raises for data >= 2 and selects data = 1.  The run side and the fill side use the same selector.
+SFilter(s) == [t |-> "sfilter", s |-> s]
+Raises(v) == v.d >= 2
+SelSem(s, v) ==
+  CASE s = "not_even" -> ~(v.d % 2 = 0)                           \* Not(is_even)
+    [] s = "and_even_lt2" -> v.d % 2 = 0 /\ v.d < 2                \* (is_even, is_lt2)
+    [] s = "or_even_lt2" -> v.d % 2 = 0 \/ v.d < 2                 \* [is_even, is_lt2]
+    [] s = "not_or" -> ~(v.d % 2 = 0 \/ v.d < 2)                   \* Not([is_even, is_lt2])
+    [] s = "and_not" -> ~(v.d % 2 = 0) /\ v.d < 2                  \* (Not(is_even), is_lt2)
+    [] s = "roe" -> ~Raises(v) /\ v.d = 1                          \* an error counts as "not selected"
+    [] s = "not_roe" -> ~(~Raises(v) /\ v.d = 1)                   \* Not(.., raise_on_error=False): full negation
+\* a callable that returns None (or a bare 0) for some values: a callable is not a filter, whatever it returns is
+\* passed on / filled.  None is the value NoneVal.
+NoneVal == Val(-7, {}, FALSE)
+NMap(f) == [t |-> "nmap", f |-> f]
+ApplyN(f, v) == CASE f = "none_odd" -> IF v.d % 2 = 1 THEN NoneVal ELSE v
+                  [] f = "none_all" -> NoneVal
+                  [] f = "zero_odd" -> IF v.d % 2 = 1 THEN Val(0, {}, FALSE) ELSE v
+\* chains in which None only meets elements that take any value
+Tolerant(st) == st.t \in {"slice", "cfilter"}
+MakesNone(st) == st.t = "nmap" /\ st.f \in {"none_odd", "none_all"}
+WellTyped(ch) ==
+  \A i \in 1..Len(ch.pre) : MakesNone(ch.pre[i]) =>
+     /\ \A j \in (i + 1)..Len(ch.pre) : Tolerant(ch.pre[j])
+     /\ ch.acc \in {"store1", "last", "cnt"}
+     /\ \A j \in 1..Len(ch.post) : Tolerant(ch.post[j])
 \* post elements that keep nothing between two runs (compute() may then be called again)
-Stateless(post) == \A i \in 1..Len(post) : post[i].t \in {"map", "filter", "slice", "runif", "cfilter", "crunif", "runifdup", "runifseq"}
+Stateless(post) == \A i \in 1..Len(post) : post[i].t \in {"map", "filter", "slice", "runif", "cfilter", "crunif", "runifdup", "runifseq", "sfilter", "nmap"}
 OnHave2(st, loc, v) ==
   CASE st.t = "cfilter" -> [loc |-> loc, em |-> IF HasKey(st.k, v) THEN <<v>> ELSE <<>>]
     [] st.t = "crunif" -> [loc |-> loc, em |-> IF HasKey(st.k, v)
@@ -59,6 +86,8 @@ OnHave2(st, loc, v) ==
                                                 ELSE <<v>>]
     [] st.t = "runifdup" -> [loc |-> loc, em |-> Dup(st, v)]
     [] st.t = "runifseq" -> [loc |-> loc, em |-> InnerRun(st, v)]
+    [] st.t = "sfilter" -> [loc |-> loc, em |-> IF SelSem(st.s, v) THEN <<v>> ELSE <<>>]
+    [] st.t = "nmap" -> [loc |-> loc, em |-> <<ApplyN(st.f, v)>>]
     [] OTHER -> OnHave(st, loc, v)
 \* FlowSem.Sem over the extended vocabulary
 RECURSIVE StageRun2(_, _, _, _)
@@ -96,6 +125,8 @@ FillIntoStep(st, loc, v) ==
                           em |-> IF Pred(st.p, v) THEN (IF st.f = "drop" THEN <<>> ELSE <<ApplyMap(st.f, v)>>) ELSE <<v>>]
     [] st.t = "runifdup" -> [loc |-> loc, em |-> Dup(st, v), stop |-> FALSE]
     [] st.t = "runifseq" -> [loc |-> loc, em |-> InnerRun(st, v), stop |-> FALSE]
+    [] st.t = "sfilter" -> [loc |-> loc, em |-> IF SelSem(st.s, v) THEN <<v>> ELSE <<>>, stop |-> FALSE]
+    [] st.t = "nmap" -> [loc |-> loc, em |-> <<ApplyN(st.f, v)>>, stop |-> FALSE]
     [] st.t = "cfilter" -> [loc |-> loc, em |-> IF HasKey(st.k, v) THEN <<v>> ELSE <<>>, stop |-> FALSE]
     [] st.t = "crunif" -> [loc |-> loc, stop |-> FALSE,
                            em |-> IF HasKey(st.k, v) THEN (IF st.f = "drop" THEN <<>> ELSE <<ApplyMap(st.f, v)>>) ELSE <<v>>]
